@@ -49,3 +49,13 @@ func (ps *Pieces) SimState(i int) uint32 {
 	}
 	return ps.pieces[i].state
 }
+
+// SimAnyBusy reports whether some piece is being hashed.
+func (ps *Pieces) SimAnyBusy() bool {
+	for i := range ps.pieces {
+		if ps.pieces[i].state == 2 {
+			return true
+		}
+	}
+	return false
+}
